@@ -6,6 +6,7 @@ from pyvc.verify import verify_function
 k=[kk for kk in REGISTRY if sys.argv[1] in kk][0]
 r = verify_function(REGISTRY[k], REGISTRY)
 for o in r.obligations:
-    if 'cover.loop' in o.name:
-        for i,p in enumerate(o.pc): print(i, str(p)[:300].replace('\n',' '))
-        print(o.st.ghost, o.st.locals.get('file_as_lines'))
+    if sys.argv[2] in o.name:
+        for i,p in enumerate(o.pc): print(i, str(p)[:int(sys.argv[3]) if len(sys.argv)>3 else 300].replace('\n',' '))
+        print('GOAL', o.goal)
+        break
